@@ -32,7 +32,10 @@ def main():
     tier = "quick"
     props = [prop]
     suite = True
+    extra_args = []
     for i, a in enumerate(args):
+        if a == "--count":
+            extra_args = ["--count", args[i + 1]]
         if a == "--tier":
             tier = args[i + 1]
         if a == "--all":
@@ -71,7 +74,7 @@ def main():
             env3.pop("PYTHONHASHSEED", None)
             env3.pop("DSIM_NO_REEXEC", None)
             t0 = time.time()
-            rc, out, err = sh([os.path.join(VERIF, "bin", "check"), p, tier, "--no-selftest"], env=env3, timeout=6 * 3600)
+            rc, out, err = sh([os.path.join(VERIF, "bin", "check"), p, tier, "--no-selftest"] + extra_args, env=env3, timeout=6 * 3600)
             res["check_%s_exit" % p] = rc
             res["check_%s_s" % p] = round(time.time() - t0, 1)
             res["check_%s_violations" % p] = [l[:260] for l in out.splitlines() if l.startswith("violation:")][:4]
